@@ -98,7 +98,18 @@ RULE = ("histories of 1-14 calls (seek with all three origins and offsets from -
         "used again after its block (read / write / seek / tell / flush / address / slice) and closed views are "
         "re-entered; the oracle judges the exit (the view must now be closed) and every later call on that view as "
         "a call on a closed view (keys dead-view-operates / dead-view-sliced); 5% of reads/writes elsewhere also run "
-        "with TruncationWarning as an error. A history is "
+        "with TruncationWarning as an error. OBJECT LIFETIME (12% of the histories; every producer: MemoryIO(...), "
+        "sdram_alloc_as_filelike, sdram_alloc_for_vertices on the recording controller, slices, slices of slices): "
+        "the program drops its last reference to a view - the owner MemoryIO itself or an intermediate slice - "
+        "(del + gc.collect(); the harness keeps no reference either) while the views made from it stay in use; in "
+        "half of these a 'helper' creates the owner, slices it 1-3 times and hands back only the slices. Any "
+        "exception that neither the model nor the specification predicts is reported (unexpected-exception). LONG "
+        "TRANSFERS (200 histories per quick run, 3,000 thorough): views of 257-6,000 bytes at unaligned bases with "
+        "lengths that are not multiples of 4, default reads, reads and writes of 257 bytes to several KiB, "
+        "unaligned in address and length, directly and through unaligned slices, some with a failing transfer and a "
+        "retry. In EVERY stream the recording controller logs (address, length/data, x, y, p) of every read, write "
+        "and sdram_free, the model must predict exactly that call, and the Lean oracle judges its range against "
+        "the issuing view's bounds (confinement) and against the transferred bytes (file-transfer). A history is "
         "non-trivial when at least one read or write was truncated; distinct = distinct canonical JSON of the history")
 
 MARGIN = 16
@@ -121,6 +132,9 @@ WHAT = {
     "failed-transfer": "a read/write whose transfer failed (the controller raised) did not leave the view as "
                        "a failed file operation does: position unmoved, nothing delivered, the error raised",
     "bounded-file": "a call does not behave like the same call on a fixed-length file",
+    "unexpected-exception": "a call raised an exception that neither the model nor the file specification predicts "
+                            "(the only documented failures are OSError on closed/freed views, ValueError for a bad "
+                            "origin or key, the controller's transfer errors, TruncationWarning when made an error)",
     "did-not-return": "a call of the implementation did not return (the model is total: every call terminates)",
 }
 
@@ -185,6 +199,9 @@ def fake_class():
             if length_bytes > 1 << 22:
                 raise RuntimeError("harness: transfer of %d bytes is larger than any generated view" % length_bytes)
             r = self._region(x, y, address)
+            if r is not None and r["base"] <= address and address + length_bytes <= r["base"] + len(r["mem"]):
+                i = address - r["base"]
+                return bytes(r["mem"][i:i + max(0, length_bytes)])
             out = bytearray()
             for a in range(address, address + max(0, length_bytes)):
                 if r is None:
@@ -472,8 +489,50 @@ def call(view, op):
     raise ValueError(k)
 
 
+def owner_freed(ob):
+    """the `_freed` flag of the allocation's owner - through the owner while the harness still holds it,
+    else through any view that is still referenced (its `_parent`), else the last value seen"""
+    try:
+        if ob["root"] is not None:
+            ob["freed_last"] = bool(ob["root"]._freed)
+        else:
+            u = next((u for u in ob["views"] if u is not None), None)
+            if u is not None:
+                ob["freed_last"] = bool(u._parent._freed)
+    except Exception:
+        pass
+    return ob["freed_last"]
+
+
+def live_ops(case, o):
+    """the calls of owner `o` that can be made: not the `drop`s themselves, not calls on dropped views"""
+    dropped, out = set(), []
+    for op in case["ops"]:
+        if op.get("o", 0) != o:
+            continue
+        if op["k"] == "drop":
+            dropped.add(op["v"])
+        elif op["v"] not in dropped:
+            out.append(op)
+    return out
+
+
 def run_impl(case):
     """Run the history on the real code; returns dict(outs (per op), objs (per view owner))."""
+    if not any(op["k"] == "drop" for op in case["ops"]):
+        return _run_impl(case)
+    import gc
+    # histories that drop objects run the collector: everything that exists already is moved out of its
+    # way first (gc.freeze), so each collection only looks at the objects of this history
+    gc.freeze()
+    try:
+        return _run_impl(case)
+    finally:
+        gc.unfreeze()
+
+
+def _run_impl(case):
+    import gc
     import sys
     from harness import common
     if case.get("reload"):
@@ -502,11 +561,33 @@ def run_impl(case):
         except Exception as e:
             return {"create_err": "%s: %s" % (type(e).__name__, e)}
         objs.append({"root": root, "views": [root], "root0": snap(root), "region": region, "steps": [],
-                     "outs": [], "asked": asked, "win0": list(s["win"])})
+                     "outs": [], "asked": asked, "lastwin": list(s["win"]), "final": {}, "freed_last": False,
+                     "dropset": set()})
+        del root
     outs = []
+    v = r = None
     for k, op in enumerate(case["ops"]):
         ob = objs[op.get("o", 0)] if 0 <= op.get("o", 0) < len(objs) else None
         views = ob["views"] if ob else []
+        if op["k"] == "drop":
+            # OBJECT LIFETIME: the program drops its last reference to this view (for view 0: to the
+            # MemoryIO that owns the allocation) and the collector runs; views sliced from it stay in use
+            if ob:
+                ob["dropset"].add(op["v"])
+            if ob and 0 <= op["v"] < len(views) and views[op["v"]] is not None:
+                ob["final"][op["v"]] = snap(views[op["v"]])
+                owner_freed(ob)
+                views[op["v"]] = None
+                if op["v"] == 0:
+                    ob["root"] = None
+                ob["last_exc"] = None
+                v = r = None
+                gc.collect()
+            outs.append({"ret": None, "warn": False, "acc": None, "dropped": True})
+            continue
+        if ob and op["v"] in ob["dropset"]:
+            outs.append({"ret": None, "warn": False, "acc": None, "dropped": True})   # no reference left: not callable
+            continue
         if not 0 <= op["v"] < len(views):
             # the history refers to a view this implementation never created (an earlier slicing
             # behaved differently from what the generator assumed): same result as the model's
@@ -516,10 +597,10 @@ def run_impl(case):
             if ob:
                 ob["outs"].append(out)
             continue
-        v, root = views[op["v"]], ob["root"]
-        pre, freed = snap(v), bool(root._freed)
+        v = views[op["v"]]
+        pre, freed = snap(v), owner_freed(ob)
         wb = list(ob["region"]["mem"])
-        if wb == (ob["steps"][-1]["win"] if ob["steps"] else ob["win0"]):
+        if wb == ob["lastwin"]:
             wb = None
         del mc.log[:]
         nv = None
@@ -570,12 +651,17 @@ def run_impl(case):
             out["extra_acc"] = [list(a) for a in mc.log[1:]]
         outs.append(out)
         ob["outs"].append(out)
-        ob["steps"].append({"idx": k, "wb": wb, "root": op["v"] == 0, "pre": pre, "freed": freed, "op": op, "out": out,
-                            "post": snap(v), "pfreed": bool(root._freed), "nv": nv, "win": list(ob["region"]["mem"])})
+        win = list(ob["region"]["mem"])
+        unchanged = wb is None and win == ob["lastwin"]
+        ob["lastwin"] = win
+        ob["steps"].append({"idx": k, "j": len(ob["outs"]) - 1, "wb": wb, "root": op["v"] == 0, "pre": pre, "freed": freed, "op": op, "out": out,
+                            "post": snap(v), "pfreed": owner_freed(ob), "nv": nv, "win": None if unchanged else win})
+    v = r = None
     res = []
     for ob in objs:
-        res.append({"steps": ob["steps"], "outs": ob["outs"], "views": [snap(v) for v in ob["views"]],
-                    "root0": ob["root0"], "freed": bool(ob["root"]._freed), "win": list(ob["region"]["mem"]),
+        res.append({"steps": ob["steps"], "outs": ob["outs"],
+                    "views": [ob["final"][i] if u is None else snap(u) for i, u in enumerate(ob["views"])],
+                    "root0": ob["root0"], "freed": owner_freed(ob), "win": list(ob["region"]["mem"]),
                     "asked": ob["asked"]})
     return {"outs": outs, "objs": res}
 
@@ -589,7 +675,7 @@ def lean_reqs(case, impl):
     for o, (s, ob) in enumerate(zip(specs(case), impl["objs"])):
         start, _ = root_range(s)
         base = start - s["margin"]
-        ops = [op for op in case["ops"] if op.get("o", 0) == o]
+        ops = live_ops(case, o)
         tr = {"suite": "c13", "op": "trace", "x": s["x"], "y": s["y"], "base": base, "win": s["win"],
               "mode": s["mode"], "start": s["start"], "ops": ops}
         for k in ("stop", "size", "s0", "s1"):
@@ -621,7 +707,7 @@ def judge(case, impl, reps):
     mm, viol = None, []
     for o, ob in enumerate(impl["objs"]):
         model, check = reps[2 * o], reps[2 * o + 1]
-        ops = [op for op in case["ops"] if op.get("o", 0) == o]
+        ops = live_ops(case, o)
         if "proto_error" in model:
             mm = mm or ("model: " + model["proto_error"])
         elif mm is None:
@@ -647,11 +733,17 @@ def judge(case, impl, reps):
             for st, fails in zip(ob["steps"], check["fails"]):
                 if isinstance(st["out"]["ret"], dict) and st["out"]["ret"].get("err") == "DidNotReturn":
                     continue                        # reported once, as did-not-return (below)
+                other = isinstance(st["out"]["ret"], dict) and str(st["out"]["ret"].get("err", "")).startswith("Other:")
+                if not fails and other and "outs" in model and st["j"] < len(model["outs"]) and \
+                        model["outs"][st["j"]]["ret"] != st["out"]["ret"]:
+                    fails = ["model-predicts-no-exception"]
                 if fails:
                     key = key_of(fails)
                     if key == "bounded-file" and st["op"].get("fault") is not None and st["out"]["acc"] is not None:
                         key = "failed-transfer"     # the controller raised during this call
-                    viol.append((st["idx"], key, fails))
+                    if other and key in ("bounded-file", "slice-range", "dead-view-operates", "dead-view-sliced"):
+                        key = "unexpected-exception"    # an exception neither the model nor the specification predicts
+                    viol.append((st["idx"], key, fails + ([st["out"]["ret"]["err"]] if other else [])))
             if check.get("root"):
                 viol.append((-1, "confinement", ["root-view-is-not-the-allocation"]))
         for st in ob["steps"]:
@@ -772,6 +864,11 @@ def process(ctx, cases):
                 ctx.tag("big-int-argument")
             if op.get("werr"):
                 ctx.tag("warnings-as-errors")
+            if op["k"] == "drop":
+                ctx.tag("drop:owner" if op["v"] == 0 else "drop:slice")
+            n_acc = o["acc"][2] if o["acc"] and o["acc"][0] == "r" else len(o["acc"][2]) if o["acc"] and o["acc"][0] == "w" else 0
+            if n_acc > 256:
+                ctx.tag("transfer>256:%s:%s" % (o["acc"][0], "unaligned" if o["acc"][1] % 4 or n_acc % 4 else "aligned"))
             if op["k"] == "exit":
                 ctx.tag("with-exit:" + (op.get("how") or "normal"))
             if op["k"] == "close" and op.get("with"):
@@ -852,7 +949,13 @@ def palette(rng):
 
 def new_state(L):
     """generator aid only: what the views of one owner look like under the specification"""
-    return {"lens": [L], "depth": [0], "closed": [False], "freed": False}
+    return {"lens": [L], "depth": [0], "closed": [False], "freed": False, "dropped": set()}
+
+
+def pick_view(rng, G):
+    """a view the program still holds a reference to"""
+    alive = [i for i in range(len(G["lens"])) if i not in G["dropped"]]
+    return rng.choice(alive) if rng.random() < 0.7 else alive[-1]
 
 
 def gen_spec(rng, pal, L=None):
@@ -946,7 +1049,7 @@ def gen_block(rng, G, o, pending):
     normally, by the caller's exception or by an exception of the view's own operation; then the
     views are used again (a closed view may also be re-entered).  First op returned, rest queued."""
     lens, depth, closed = G["lens"], G["depth"], G["closed"]
-    v = rng.randrange(len(lens))
+    v = pick_view(rng, G)
     seq, chain = [], []
     for level in range(rng.choice([1, 1, 2, 3])):
         seq.append({"k": "enter", "v": v})
@@ -1004,7 +1107,7 @@ def gen_op(rng, G, o, pal, pending, small_io=False):
     lens, depth, closed = G["lens"], G["depth"], G["closed"]
     if rng.random() < 0.06 and not small_io:
         return gen_block(rng, G, o, pending)
-    v = rng.randrange(len(lens)) if rng.random() < 0.7 else len(lens) - 1
+    v = pick_view(rng, G)
     Lv = lens[v]
     big = pal["big"] and rng.random() < 0.3
 
@@ -1073,7 +1176,7 @@ def gen_op(rng, G, o, pal, pending, small_io=False):
             closed[v] = True
         big = False
     else:
-        op = {"k": "free", "v": v if rng.random() < 0.3 else 0}
+        op = {"k": "free", "v": v if rng.random() < 0.3 or 0 in G["dropped"] else 0}
         big = False
         if op["v"] == 0 and rng.random() < 0.25:
             # the controller's sdram_free fails: nothing is freed, the views stay usable, free() again
@@ -1117,12 +1220,23 @@ def gen_op(rng, G, o, pal, pending, small_io=False):
     return op
 
 
-def gen_ops(rng, owners, target, pal, mirrored=False, small_io=False):
+def gen_ops(rng, owners, target, pal, mirrored=False, small_io=False, lifetime=False):
     ops, pending = [], []
     while len(ops) < target or pending:
         if pending:
             ops.append(pending.pop(0))
             continue
+        if lifetime and rng.random() < 0.12:
+            # OBJECT LIFETIME: the program forgets a view (the owner itself, or an intermediate slice);
+            # the views made from it stay in use
+            o = rng.randrange(len(owners))
+            G = owners[o]
+            alive = [i for i in range(len(G["lens"])) if i not in G["dropped"]]
+            if len(alive) >= 2:
+                i = 0 if 0 in alive and rng.random() < 0.5 else rng.choice(alive)
+                G["dropped"].add(i)
+                ops.append({"k": "drop", "v": i, "o": o})
+                continue
         if mirrored:
             # twins do the same thing, in either order
             op = gen_op(rng, owners[0], 0, pal, pending, small_io)
@@ -1157,8 +1271,78 @@ def gen_case(rng):
         case["twins"], case["twin"], case["reload"] = [twin], what, True
         owners.append(new_state(L2))
         mirrored = rng.random() < 0.4
-    case["ops"] = gen_ops(rng, owners, rng.randint(1, 14), pal, mirrored)
+    first = []
+    lifetime = not mirrored and rng.random() < 0.12
+    if lifetime:
+        case["stream"] = "lifetime"
+        if rng.random() < 0.5:
+            # a helper creates the allocation's view and hands back only slices of it
+            case["stream"] = "lifetime:helper-returns-slices"
+            G = owners[0]
+            for _ in range(rng.randint(1, 3)):
+                a = None if rng.random() < 0.3 else rng.randint(0, L)
+                b = None if rng.random() < 0.3 else rng.choice([rng.randint(0, L), -rng.randint(1, 3)])
+                first.append({"k": "slice", "v": 0, "a": a, "b": b, "s": None})
+                lo, hi, _ = slice(a, b).indices(L)
+                G["lens"].append(max(0, hi - lo))
+                G["depth"].append(1)
+                G["closed"].append(False)
+            first.append({"k": "drop", "v": 0})
+            G["dropped"].add(0)
+            if len(owners) > 1:
+                for op in first:
+                    op["o"] = 0
+    case["ops"] = first + gen_ops(rng, owners, rng.randint(1, 14), pal, mirrored, lifetime=lifetime)
     return case
+
+
+def long_case(rng):
+    """LONG TRANSFERS: views of hundreds to thousands of bytes at unaligned bases with lengths that are
+    not multiples of 4; reads and writes of more than 256 bytes, unaligned in address and in length,
+    directly and through unaligned slices"""
+    plain = {"nk": ["int"], "big": False}
+    L = rng.choice([rng.randint(257, 700), rng.randint(257, 700), rng.randint(700, 2100), 1001, 1024, 1027, 2051,
+                    4097, rng.randint(2100, 6000)])
+    c, _ = gen_spec(rng, plain, L=L)
+    c.pop("alloc_fault", None)
+    G = new_state(L)
+    lens = G["lens"]
+    ops = []
+    for _ in range(rng.randint(3, 8)):
+        v = rng.randrange(len(lens))
+        Lv = lens[v]
+        r = rng.random()
+        if r < 0.25:
+            ops.append({"k": "seek", "v": v, "n": rng.choice([0, 1, 2, 3, 5, 7, rng.randint(0, max(0, Lv - 257)), Lv - 300]),
+                        "w": 0})
+        elif r < 0.55:
+            if rng.random() < 0.5:
+                op = {"k": "read", "v": v, "n": -1, "dflt": True}
+            else:
+                op = {"k": "read", "v": v, "n": rng.choice([257, 258, 259, 260, 300, 511, 513, 1000, Lv, Lv + 5,
+                                                            rng.randint(257, max(258, Lv))])}
+            if rng.random() < 0.1:
+                op["fault"], op["exc"] = 0, "timeout"
+            ops.append(op)
+            if "fault" in op:
+                ops += [{"k": "tell", "v": v}, {k: x for k, x in op.items() if k not in ("fault", "exc")}]
+        elif r < 0.8:
+            n = rng.choice([257, 259, 300, 513, 1001, rng.randint(257, max(258, min(Lv + 9, 3000)))])
+            op = {"k": "write", "v": v, "d": [rng.randrange(256) for _ in range(n)]}
+            if rng.random() < 0.1:
+                op["fault"], op["exc"] = rng.choice([0, 5, 256, 257, n]), "timeout"
+            ops.append(op)
+        elif len(lens) < 4:
+            a = rng.choice([None, 1, 2, 3, 5, 6, 7, rng.randint(0, Lv)])
+            b = rng.choice([None, None, -1, -2, -3, rng.randint(0, Lv), Lv - 5])
+            ops.append({"k": "slice", "v": v, "a": a, "b": b, "s": None})
+            lo, hi, _ = slice(a, b).indices(Lv)
+            lens.append(max(0, hi - lo))
+        else:
+            ops.append({"k": "tell", "v": v})
+    c["ops"] = ops
+    c["stream"] = "long-transfers"
+    return c
 
 
 def scale_cases(rng, quick):
@@ -1299,6 +1483,8 @@ def corpus_cases():
 def run(ctx):
     ctx.extra["rule"] = RULE
     ctx.assumptions += [
+        "dropping the program's references to a view (incl. the owner) has no effect on the views made from it: "
+        "the model has no such operation, `drop` steps are harness actions only",
         "a failed transfer is the controller's read/write raising SCPError (TimeoutError, FatalReturnCodeError) "
         "after storing a prefix (possibly empty, possibly all) of a write; the view lets it propagate",
         "the controller's read returns exactly the requested number of bytes and write stores exactly the given bytes (C07)",
@@ -1318,6 +1504,9 @@ def run(ctx):
         process(ctx, [gen_case(rng) for _ in range(min(chunk, n - i))])
     for c in scale_cases(rng, ctx.quick):
         process(ctx, [c])
+    n_long = ctx.scale(200, 3000) * (4 if ctx.extended else 1)
+    for i in range(0, n_long, 200):
+        process(ctx, [long_case(rng) for _ in range(min(200, n_long - i))])
     maxlen = ctx.scale(2, 4)
     if ctx.extended and ctx.quick:
         maxlen = 3
